@@ -16,7 +16,8 @@ Record pcfg := {
   cInv : pstate -> Prop;
   cWeak : pstate -> Prop;
   cRel : pstate -> pstate -> Prop;
-  cPanicOk : Prop
+  cPanicOk : Prop;      (* is a panic an acceptable outcome?  (True for partial-correctness instances) *)
+  cFuelOk : Prop        (* is running out of fuel acceptable?  (False only for the termination instance) *)
 }.
 
 Definition post (C : pcfg) (P Q : pstate -> Prop) {A} (m : PM A) : Prop :=
@@ -24,7 +25,7 @@ Definition post (C : pcfg) (P Q : pstate -> Prop) {A} (m : PM A) : Prop :=
     match m s with
     | POk (_, s') => Q s' /\ cRel C s s'
     | PPanic _ => cPanicOk C
-    | POutOfFuel => True
+    | POutOfFuel => cFuelOk C
     end.
 
 Notation spec C m := (post C (cInv C) (cInv C) m).
@@ -41,6 +42,7 @@ Record prel_ok (C : pcfg) : Prop := {
 
 Record pcfg_ok (C : pcfg) : Prop := {
   ok_rel : prel_ok C;
+  ok_fuel : cFuelOk C;
   (* primitives of parser/mod.rs *)
   ok_peek_token : specR C p_peek_token;
   ok_skip_ignored : specR C p_skip_ignored;
@@ -110,13 +112,13 @@ Section Logic.
   Lemma post_peek_n_inner P n : post C P P (p_peek_n_inner (S n)).
   Proof. apply post_pure. intros s. eexists. reflexivity. Qed.
 
-  Lemma post_out_of_fuel {A} P Q : post C P Q (@p_out_of_fuel A).
-  Proof. intros s _. exact I. Qed.
+  Lemma post_out_of_fuel {A} P Q : cFuelOk C -> post C P Q (@p_out_of_fuel A).
+  Proof. intros Hf s _. exact Hf. Qed.
 End Logic.
 
 (* ------------------------------------------------------------------ the generic traversal *)
 Create HintDb gen discriminated.
-Global Hint Resolve ok_rel : gen.
+Global Hint Resolve ok_rel ok_fuel : gen.
 Global Hint Resolve ok_peek_token ok_skip_ignored ok_push_ignored ok_bump ok_err ok_err_at_token
   ok_err_at_token_inv ok_limit_err ok_err_and_pop ok_expect ok_debug_assert ok_name
   post_ret_same post_get post_peek_n_inner post_out_of_fuel : gen.
@@ -531,26 +533,26 @@ Proof.
   intros HJ Hrun. unfold p_peek_while.
   assert (Hloop : forall acc, post C (fun s => cWeak C s /\ J s) (fun s => cInv C s /\ J s)
             (p_peek_while_acc fuel (fun (_ : unit) k => c <- run k ;; p_ret (tt, c)) acc)).
-  { induction fuel as [|f IH]; intros acc; cbn [p_peek_while_acc]; [intros s _; exact I|].
+  { induction fuel as [|f IH]; intros acc; cbn [p_peek_while_acc]; [intros s _; apply (ok_fuel C H)|].
     intros s [Hw Hj].
     pose proof (g_peek C H s Hw) as Hp. unfold p_bind at 1.
-    destruct (p_peek s) as [[o s1]| |]; [|exact Hp|exact I]. destruct Hp as [Hi1 Hr1].
+    destruct (p_peek s) as [[o s1]| |]; [|exact Hp|apply (ok_fuel C H)]. destruct Hp as [Hi1 Hr1].
     pose proof (HJ _ _ Hr1 Hj) as Hj1.
     destruct o as [kind|].
     2:{ cbn. split; [auto|]. exact Hr1. }
     unfold p_bind at 1. unfold p_get at 1. cbv iota beta.
     unfold p_bind at 1. unfold p_bind at 1.
     pose proof (Hrun kind s1 (conj Hi1 Hj1)) as Hk.
-    destruct (run kind s1) as [[c s2]| |]; [|exact Hk|exact I]. destruct Hk as [Hi2 Hr2].
+    destruct (run kind s1) as [[c s2]| |]; [|exact Hk|apply (ok_fuel C H)]. destruct Hk as [Hi2 Hr2].
     cbn [p_ret]. cbv iota beta.
     pose proof (HJ _ _ Hr2 Hj1) as Hj2.
     destruct c.
     - unfold p_bind at 1.
       pose proof (ok_debug_assert C H (ps_cur s1) s2 Hi2) as Hd.
-      destruct (p_debug_assert_advanced (ps_cur s1) s2) as [[u s3]| |]; [|exact Hd|exact I].
+      destruct (p_debug_assert_advanced (ps_cur s1) s2) as [[u s3]| |]; [|exact Hd|apply (ok_fuel C H)].
       destruct Hd as [Hi3 Hr3]. pose proof (HJ _ _ Hr3 Hj2) as Hj3.
       specialize (IH tt s3 (conj (ok_inv_weak C (ok_rel C H) _ Hi3) Hj3)).
-      destruct (p_peek_while_acc f _ tt s3) as [[a s4]| |]; [|exact IH|exact I].
+      destruct (p_peek_while_acc f _ tt s3) as [[a s4]| |]; [|exact IH|apply (ok_fuel C H)].
       destruct IH as [Hi4 Hr4]. split; [exact Hi4|].
       eapply (ok_trans C (ok_rel C H)); [exact Hr1|]. eapply (ok_trans C (ok_rel C H)); [exact Hr2|].
       eapply (ok_trans C (ok_rel C H)); eauto.
@@ -561,10 +563,10 @@ Qed.
 
 (* configurations in which a panic is acceptable (partial correctness): post speaks about returns only *)
 Lemma post_partial C {A} (P Q : pstate -> Prop) (m : PM A) :
-  cPanicOk C ->
+  cPanicOk C -> cFuelOk C ->
   (forall s, P s -> forall a s', m s = POk (a, s') -> Q s' /\ cRel C s s') -> post C P Q m.
 Proof.
-  intros Hp Hm s Hs. destruct (m s) as [[a s']| |] eqn:E; auto. eapply Hm; eauto.
+  intros Hp Hfu Hm s Hs. destruct (m s) as [[a s']| |] eqn:E; auto. eapply Hm; eauto.
 Qed.
 Lemma post_returns C {A} (P Q : pstate -> Prop) (m : PM A) :
   post C P Q m -> forall s, P s -> forall a s', m s = POk (a, s') -> Q s' /\ cRel C s s'.
